@@ -274,7 +274,7 @@ fn run_case(
             for l in &obs.labels {
                 *st.labels.entry(l).or_insert(0) += 1;
             }
-            if obs.want_render && obs.nontrivial && !obs.render.is_empty() {
+            if obs.want_render && (obs.nontrivial || obs.extra_nontrivial > 0) && !obs.render.is_empty() {
                 st.samples.push(json!({ "sub": sub, "case": obs.render, "labels": obs.labels }));
             }
         }
